@@ -330,3 +330,7 @@ CHECKS["C09"]["harnesses"].append(
 CHECKS["C03"]["harnesses"].append(
     dict(_HTTP, harness="Harness_C03_history", setup="Setup_C03_history", reach=["c03.history"], quick={"sample_models": 20, "sample_every": 2}, thorough={"params": {"hist": 2}, "sample_models": 40, "sample_every": 7},
          what="request histories through one Server and its POST transport: 1 [2] preceding requests from a 4-request corpus, then each of 10 requests that must be rejected (missing / null / mistyped variables, operation selection, validation, parse): no interceptor, no resolver, errors only"))
+
+CHECKS["C07"]["harnesses"].append(
+    dict(_HTTP, harness="Harness_C07_serverHistory", setup="Setup_C07_serverHistory", reach=["c07.server.history"], quick={"sample_models": 30, "sample_every": 23},
+         what="two requests through one Server (13-request corpus: 4 transports x documents x operation names x Accept headers, valid and invalid) x configured response headers x query cache: status, headers, executed operation and body of the second equal a fresh server's answer"))
